@@ -134,10 +134,37 @@ static int do_multi(const char *in, const char *outname) {
         set_cell(cit.get_ionization_variables(), kap[ix * G[1] * G[2] + iy * G[2] + iz]);
       }
     }
+    // optional: "L seed l_0 .. l_{nsub-1}" copy levels per original subgrid; the packet then starts in a (seeded) copy of
+    // its subgrid and follows the neighbour wiring of the copies; the deposits are folded back with
+    // update_original_counters() before they are read
+    std::string tagL;
+    unsigned long cseed = 0;
+    bool copies = false;
+    if (is >> tagL && tagL == "L") {
+      is >> cseed;
+      std::vector< uint_fast8_t > levels(S[0] * S[1] * S[2]);
+      for (auto &l : levels) {
+        long v = 0;
+        is >> v;
+        l = v;
+      }
+      creator.create_copies(levels);
+      copies = true;
+    }
     PhotonPacket ph;
     const double pos[3] = {a[0] + p[0] * u[0], a[1] + p[1] * u[1], a[2] + p[2] * u[2]};
     make_packet(ph, pos, d, u, tau, w, sigma, nu);
     size_t sub = creator.get_subgrid(ph.get_position()).get_index();
+    if (copies) {
+      auto first = creator.get_subgrid(ph.get_position());
+      auto cp = first.get_copies();
+      std::vector< size_t > choice(1, sub);
+      if (cp.first != creator.all_end()) {
+        for (auto it = cp.first; it != cp.second; ++it)
+          choice.push_back(it.get_index());
+      }
+      sub = choice[cseed % choice.size()];
+    }
     int indir = TRAVELDIRECTION_INSIDE;
     int o = 0;
     std::string hops = "[";
@@ -162,6 +189,8 @@ static int do_multi(const char *in, const char *outname) {
     fprintf(out, "{\"out\":%d,\"end\":[%.17g,%.17g,%.17g],\"tauleft\":%.17g,\"hops\":%s,\"dep\":[", o,
             (e.x() - a[0]) / u[0], (e.y() - a[1]) / u[1], (e.z() - a[2]) / u[2], ph.get_target_optical_depth(),
             hops.c_str());
+    if (copies)
+      creator.update_original_counters();
     std::vector< double > dep(kap.size(), 0.);
     for (auto git = creator.begin(); git != creator.original_end(); ++git) {
       for (auto cit = (*git).begin(); cit != (*git).end(); ++cit) {
